@@ -364,6 +364,11 @@ func appendSlice(expr ast.Expr, lhsV reflect.Value, rhsV reflect.Value) (reflect
 			if rhsT == interfaceType {
 				value = value.Elem()
 			}
+			if !value.IsValid() {
+				// a nil element: the zero value of the element type, as for a single nil
+				lhsV = reflect.Append(lhsV, reflect.Zero(lhsT))
+				continue
+			}
 			if lhsT == value.Type() {
 				lhsV = reflect.Append(lhsV, value)
 			} else if value.Type().ConvertibleTo(lhsT) {
